@@ -23,10 +23,15 @@ DOM = {
     'in_math_mode': [False, True],
     'math_mode_delimiter': [None, '$', '$$', '\\(', '\\[', '@', 'custom'],
     'latex_group_delimiters': [[['{', '}']], [['{', '}'], ['[', ']']], [['<', '>']],
-                               [['{', '}'], ['<', '>'], ['(', ')']]],
+                               [['{', '}'], ['<', '>'], ['(', ')']],
+                               # an opener listed twice, pairs in another order
+                               [['{', ')'], ['{', '}']], [['[', ']'], ['{', '}']], [['{', '}'], ['{', '>']]],
     'latex_inline_math_delimiters': [None, [['$', '$']], [['\\(', '\\)']], [['@', '@']],
-                                     [['$', '$'], ['@', '@']], []],
-    'latex_display_math_delimiters': [None, [['$$', '$$']], [['\\[', '\\]']], [['@@', '@@']], []],
+                                     [['$', '$'], ['@', '@']], [],
+                                     # overlapping with display lists
+                                     [['@@', '@@'], ['$', '$']], [['\\[', '\\]']]],
+    'latex_display_math_delimiters': [None, [['$$', '$$']], [['\\[', '\\]']], [['@@', '@@']], [],
+                                      [['$', '$'], ['\\[', '\\]']], [['@', '@']], [['\\(', '\\)'], ['$$', '$$']]],
     'enable_double_newline_paragraphs': [True, False],
     'enable_macros': [True, False],
     'enable_environments': [True, False],
@@ -313,6 +318,31 @@ def token_dump(ps, s):
     return out, ticks + len(s) + 1
 
 
+SHARED_READER_PROBES = ['a$b%c', 'x{y}[z]', '\\ab !cd', '#e\n@f@', '$$g$$<h>', 'x%%i']
+
+
+def shared_reader_dump(first, second, s):
+    """One token reader asked at every position first with one state, then with another
+    (what a parser does when it derives a state and looks at the same token again)."""
+    from pylatexenc.latexnodes import LatexWalkerEndOfStream, LatexWalkerError, LatexTokenReader
+    r = LatexTokenReader(s)
+    out = []
+    for p in range(len(s) + 1):
+        for k, ps in enumerate((first, second)):
+            r.move_to_pos_chars(p)
+            try:
+                t = D.dump_token(r.peek_token(ps))
+            except LatexWalkerEndOfStream:
+                t = 'EOS'
+            except LatexWalkerError as e:
+                t = [type(e).__name__, getattr(e, 'pos', None)]
+            except Exception as e:
+                t = ['EXC', type(e).__name__, D.scrub(str(e))]
+            if k == 1:
+                out.append(t)
+    return out
+
+
 def parse_dump(ps, s, tolerant):
     from pylatexenc.latexnodes import LatexWalkerError
     from pylatexenc.latexnodes.parsers import LatexGeneralNodesParser
@@ -554,6 +584,17 @@ def execute(program):
                         stats.inc('probe:state-left-unused-until-later')
                     else:
                         b = compare_with_fresh(child, opi, len(live), base_strings)
+                    # one token reader, asked with the parent and then with the child at the same place
+                    if not lazy:
+                        fresh_child = type(child)(**child.get_fields())
+                        for sp in SHARED_READER_PROBES + list(program['probes'][:2]):
+                            a = shared_reader_dump(parent['ps'], child, sp)
+                            bb = shared_reader_dump(parent['ps'], fresh_child, sp)
+                            stats.inc('shared-reader-comparisons')
+                            if a != bb:
+                                raise Violation('derived-tokenizes-like-fresh', op_index=opi, state=len(live),
+                                                input=sp, stream='one-reader-parent-then-child',
+                                                fields=plain_fields(child), observed=a, expected=bb)
                     # parent must still behave as when it was created
                     recheck_behaviour(opi, j, (opi, 3))
                     # ... and so must the state derived from the same parent before this one
